@@ -13,6 +13,7 @@
    undelivered g i := covered g i < done_idx g i  ("a notify of i has returned and no Drain step
    has taken its activation since"). *)
 From V Require Import model.Base model.Conc model.Events model.Event proofs.EventProofs.
+From V Require Import model.EventPort proofs.EventPortProofs.
 Open Scope N_scope.
 
 (* ---- no phantom event ---- *)
@@ -252,3 +253,32 @@ Example c05_data_nonvacuous :
   notified_total (fst cf) 0 = 1 /\ delivered_total (fst cf) 0 = 0 /\ pend EBitSet (words (fst cf)) 0 = 1.
 Proof. cbv zeta. split; [exists nv2_sched; reflexivity|]. vm_compute. repeat split; reflexivity. Qed.
 Print Assumptions c05_data_nonvacuous.
+
+(* ---- port level (iceoryx2::port::notifier fan-out over the per-listener connection slots) ---- *)
+(* every occupied slot is notified, whatever the occupancy pattern (holes included); empty slots
+   stay empty; the returned count is the number of occupied slots *)
+Theorem c05_port_fanout_all : forall i s,
+  length (fst (fanout i s)) = length s /\
+  snd (fanout i s) = occupied s /\
+  forall k, (nth_error s k = Some None -> nth_error (fst (fanout i s)) k = Some None) /\
+            (forall p, nth_error s k = Some (Some p) -> nth_error (fst (fanout i s)) k = Some (Some (pend_add i p))).
+Proof. exact fanout_all. Qed.
+Print Assumptions c05_port_fanout_all.
+
+Theorem c05_port_fanout_reaches_everyone : forall i s k p,
+  nth_error s k = Some (Some p) ->
+  exists p' c, nth_error (fst (fanout i s)) k = Some (Some p') /\ In (i, c) p' /\ 0 < c.
+Proof. exact fanout_reaches_everyone. Qed.
+Print Assumptions c05_port_fanout_reaches_everyone.
+
+(* the variant that ends the fan-out at the first empty slot (prefix iteration) is refuted: the
+   listener behind a hole is not notified although the call reports success *)
+Definition c05_port_prefix_fanout_reaches_everyone : Prop := forall i s k p,
+  nth_error s k = Some (Some p) ->
+  exists p' c, nth_error (fst (fanout_prefix i s)) k = Some (Some p') /\ In (i, c) p' /\ 0 < c.
+Theorem c05_port_prefix_fanout_refuted : ~ c05_port_prefix_fanout_reaches_everyone.
+Proof.
+  intros H. destruct (H 2 [None; Some []] 1%nat [] eq_refl) as (p' & c & H1 & H2 & _).
+  cbn in H1. inversion H1; subst. destruct H2.
+Qed.
+Print Assumptions c05_port_prefix_fanout_refuted.
